@@ -7,6 +7,20 @@ HERE = os.path.dirname(os.path.dirname(os.path.abspath(__file__)))
 ALL = ["C%02d" % i for i in range(1, 21)]
 
 CLAIMED = {
+    "C04": dict(
+        category="model_checking",
+        text=("Schedule.tla generates inputs with ACTIONX definitions (bodies over the supported action keywords, wells by "
+              "name or '?'); Trace_ActionApply.tla states the relation between the original, the applied and the inlined "
+              "schedule (earlier states untouched, same number of report steps, every state equal with the action marker "
+              "masked, an application is an input error exactly when the inlined deck is).  The real "
+              "Schedule::applyAction is run for 1..3 applications per input with non-decreasing step at every step where "
+              "the action exists, random match sets; the deck with the keywords inlined is parsed into a second Schedule; "
+              "TLC validates all snapshots (member-wise digests as in C03)."),
+        design_ref="DESIGN.md section 5, C04",
+        note=("Trusted: TLC; observation through serialisation/accessors (C03); renderer.  WPIMULT and connection-level "
+              "shut-in (the property's per-step exemptions) are not in the action bodies."),
+        technique="TLA+ input generator + inlining relation checked by TLC over traces of the real Schedule::applyAction",
+    ),
     "C03": dict(
         category="model_checking",
         text=("Schedule.tla generates SCHEDULE inputs (blocks of abstract keywords with their prerequisites; TLC checks "
